@@ -10,8 +10,9 @@
            expansion), requested mode, every target contributes
  E. composition: every ordered selection of <= 3 (thorough 4) distinct lines out of {stack of a profile carrying
            dbus/only/exclude directives, stack of a plain profile, stack of a profile that stacks, dbus, exec, inline
-           only, inline exclude, plain rule} containing a stack: nothing survives, and the output equals the output for
-           the host whose stack directives were expanded by hand (differential oracle)
+           only, inline exclude, plain rule, a dbus and an exec line that START with another line of the alphabet}:
+           the output is the bare host plus what each line yields alone (compositional oracle); with a stack: nothing
+           survives, and the output equals the output for the host whose stack directives were expanded by hand
  D. stack: generated targets (with/without exec rules, rules that merely contain "x,", a sub-profile, a directive
            inside) x {X, non-X} x 1-2 targets x hosts with 1-2 stack lines, and the shipped stack hosts of the
            prepared full-policy trees, against a line-based reference model (targets in the order given, minus the
@@ -437,6 +438,9 @@ COMP_LINES = {
     'only': '  /etc/host.only r, #aa:only arch',
     'exclude': '  /etc/host.excl r, #aa:exclude arch',
     'rule': '  /etc/host.plain r,',
+    # directive lines that START with another directive line of this alphabet (a longer bus name, a longer profile name)
+    'dbus-sub': '  #aa:dbus own bus=session name=org.example.Host.Sub',
+    'exec-bis': '  #aa:exec gen-t1-bis',
 }
 
 
@@ -476,9 +480,39 @@ def composition_part(rn, tier, ev, fnd):
         rn.add(n, target_text(n, body))
     for n, body in TARGETS.items():
         rn.add(n, target_text(n, body))
+    rn.add('gen-t1-bis', rn.read('gen-t1').replace('gen-t1', 'gen-t1-bis'))
     tags = list(COMP_LINES)
     L = 4 if tier == 'thorough' else 3
-    seqs = [list(s) for n in range(1, L + 1) for s in itertools.permutations(tags, n) if any(t.startswith('stack') for t in s)]
+    allseqs = [list(s) for n in range(1, L + 1) for s in itertools.permutations(tags, n)]
+    if tier == 'thorough':
+        allseqs = [s for s in allseqs if len(s) < 4 or any(t.startswith('stack') for t in s)]
+    # oracle 1 (compositional): every directive line yields its own lines, whatever stands next to it -- the non-blank
+    # lines of Run(host with lines s) are the lines of the bare host plus, for each line t of s, what Run adds for t alone
+    from collections import Counter
+    base = rn.run([comp_host([])] + [comp_host([t]) for t in tags])
+    for t, r in zip(['<bare host>'] + tags, base):
+        if r.get('err') or r.get('panic'):
+            raise SystemExit('HARNESS ERROR: single-line composition host %s fails: %s' % (t, r.get('err') or r.get('panic')))
+    fixed = Counter(l.strip() for l in base[0]['out'].split('\n') if l.strip())
+    own = {t: Counter(l.strip() for l in r['out'].split('\n') if l.strip()) - fixed for t, r in zip(tags, base[1:])}
+    allres = rn.run([comp_host(s) for s in allseqs])
+    for s, r in zip(allseqs, allres):
+        where = 'host with directive lines %s' % s
+        if r.get('err') or r.get('panic'):
+            fnd.report('composition-fails lines=%d' % len(s), '%s fails: %s' % (where, r.get('err') or r.get('panic')), {'text': comp_host(s)}); continue
+        got = Counter(l.strip() for l in r['out'].split('\n') if l.strip())
+        want = Counter(fixed)
+        for t in s:
+            want += own[t]
+        if 'stack-chain' in s and 'stack-dir' in s:
+            got, want = Counter(set(got)), Counter(set(want))          # the same profile reaches the host twice
+        if got != want:
+            kinds = sorted({t.split('-')[0] for t in s})
+            fnd.report('composition-not-the-sum kinds=%s' % '+'.join(kinds), '%s: the output is not the bare host plus what each line yields alone; missing %s, unexpected %s' % (
+                where, sorted((want - got).elements())[:4], sorted((got - want).elements())[:4]), {'text': comp_host(s), 'out': r['out']})
+    ev.add(transitions=len(allseqs) + len(tags) + 1, composition_sum_hosts=len(allseqs))
+    # oracle 2 (differential): stack directives expanded by hand
+    seqs = [s for s in allseqs if any(t.startswith('stack') for t in s)]
     hosts = [comp_host(s) for s in seqs]
     inlined = [inline_stacks(h, rn.read) for h in hosts]
     res = rn.run(hosts + inlined)
